@@ -450,7 +450,12 @@ class Exec:
                     if shape == 'expr': return fn(StateView(ps))
                     v = make_shape(shape, 'abs%d' % next(_ctr), ps.heap)
                     a = fn(view_of(ps, v), StateView(ps))
-                    ps.pc.append(zbool(a) if isinstance(a, z3.ExprRef) else z3.BoolVal(bool(a)))
+                    fact = zbool(a) if isinstance(a, z3.ExprRef) else z3.BoolVal(bool(a))
+                    ps.pc.append(fact)
+                    stack = getattr(self, '_abs_stack', None)
+                    if stack:
+                        if not isinstance(v, z3.ExprRef): raise Undecided('abstraction of a container-valued expression inside a comprehension element (line %d)' % e.lineno)
+                        stack[-1].append((v, fact))
                 return v
         m = getattr(self, 'ev_' + type(e).__name__, None)
         if m is None: raise Undecided('unsupported expression %s at line %d' % (type(e).__name__, e.lineno))
@@ -707,6 +712,12 @@ class Exec:
                 self.write(ps, base, bv.remove(args[0])); return None
             if meth == 'discard':
                 self.write(ps, base, bv.remove(args[0])); return None
+        if isinstance(bv, SSeq2) and meth == 'append' and len(args) == 1:
+            row = self.deref(ps, args[0])
+            if isinstance(row, SSeq) and row.esort == INT:
+                # the appended list becomes the last row (the row object is not mutated afterwards in the supported subset: value semantics)
+                self.write(ps, base, SSeq2(bv.len + 1, z3.Store(bv.lens, bv.len, row.len), z3.Store(bv.arrs, bv.len, row.arr)))
+                return None
         if isinstance(bv, SSeq2) and meth == 'copy':
             raise Undecided('shallow copy of a nested list at line %d' % e.lineno)
         raise Undecided('method %s on %s at line %d' % (meth, type(bv).__name__, e.lineno))
@@ -748,10 +759,27 @@ class Exec:
             nn = zint(n)
             return self.alloc(ps, SSeq2(z3.If(nn >= 0, nn, z3.IntVal(0)), z3.K(INT, z3.IntVal(0)), fresh('rows', z3.ArraySort(INT, z3.ArraySort(INT, INT)))))
         subexits = []
-        if isinstance(e.elt, ast.ListComp):
-            inner = self.ev_ListComp(e.elt, sub, subexits, nested=True)
-        else:
-            inner = self.ev(e.elt, sub, subexits)
+        if not hasattr(self, '_abs_stack'): self._abs_stack = []
+        self._abs_stack.append([])
+        try:
+            if isinstance(e.elt, ast.ListComp):
+                inner = self.ev_ListComp(e.elt, sub, subexits, nested=True)
+            else:
+                inner = self.ev(e.elt, sub, subexits)
+        finally:
+            abstracted = self._abs_stack.pop()
+        if abstracted:
+            # a value abstracted inside the element is one value PER element: replace the constant by a function of the index and
+            # assume the stated property for every index in range
+            if nested or not isinstance(inner, z3.ExprRef): raise Undecided('abstraction inside a nested comprehension element (line %d)' % e.lineno)
+            pairs = []
+            for (v, fact) in abstracted:
+                fa = fresh('absf', z3.ArraySort(INT, v.sort()))
+                pairs.append((v, z3.Select(fa, k)))
+            inner = z3.substitute(inner, *pairs)
+            for (v, fact) in abstracted:
+                f2 = z3.substitute(fact, *pairs)
+                ps.pc.append(S.forall_int(lambda j: z3.Implies(z3.And(j >= 0, j < n), z3.substitute(f2, (k, j))), 'caj'))
         if subexits: raise Undecided('comprehension element may raise at line %d' % e.lineno)
         if isinstance(inner, tuple) and inner and inner[0] == 'lazyseq':
             _, n2, k2, term = inner
@@ -893,6 +921,11 @@ class Exec:
     def st_Pass(self, st, ps, exits): return [(ps, 'next', None)]
 
     def st_Assign(self, st, ps, exits):
+        if isinstance(st.value, ast.List) and not st.value.elts and len(st.targets) == 1 and isinstance(st.targets[0], ast.Name) \
+                and getattr(self.c, 'local_shapes', {}).get(st.targets[0].id) == 'seq2_int':
+            # `name = []` that is going to hold lists (declared in the sidecar): an empty list of lists
+            ps.env[st.targets[0].id] = self.alloc(ps, SSeq2(z3.IntVal(0), z3.K(INT, z3.IntVal(0)), z3.K(INT, z3.K(INT, z3.IntVal(0)))))
+            return [(ps, 'next', None)]
         v = self.ev(st.value, ps, exits)
         for t in st.targets: self.assign(t, v, ps, exits)
         return [(ps, 'next', None)]
@@ -998,6 +1031,12 @@ class Exec:
             if isinstance(n, ast.Call) and isinstance(n.func, ast.Attribute):
                 if n.func.attr in MUTATORS:
                     l = base_loc(n.func.value)
+                    if l is None and isinstance(n.func.value, ast.Name) and not isinstance(ps.env.get(n.func.value.id), (Ref, InnerRef)):
+                        # a container created inside the body (`name = []` / a comprehension) and not bound to any object on loop entry:
+                        # mutating it changes no location that exists before the iteration
+                        nm0 = n.func.value.id
+                        made = [a for b in body for a in ast.walk(b) if isinstance(a, ast.Assign) and any(isinstance(t, ast.Name) and t.id == nm0 for t in a.targets)]
+                        if made and all(isinstance(a.value, (ast.List, ast.ListComp)) for a in made): continue
                     if l is None:
                         # a local bound inside the body (e.g. co = self.chemorder[c]); resolve through its definition
                         raise Undecided('loop body mutates through an unresolved reference (line %d)' % n.lineno)
@@ -1061,7 +1100,9 @@ class Exec:
         names, locs, fields = self.write_set(st.body, ps)
         # the iterable must not be mutated by the body
         hv = ps.fork()
+        keeps = getattr(self.c, 'loop_keeps', {}).get(ordinal, ())      # locals every continuing iteration leaves as they were (obligation below)
         for nm in names:
+            if nm in keeps: continue
             if nm in hv.env:
                 v = hv.env[nm]
                 want = {'real': REAL, 'int': INT, 'bool': BOOL}.get(getattr(self.c, 'local_sorts', {}).get(nm))
@@ -1097,6 +1138,10 @@ class Exec:
                     if lg_step is not None:
                         self.install_ghost(p, lg_step(StateView(body0), StateView(p), k), local=True)
                     self.oblige_inv('loop%d-invariant-preserved' % ordinal, st.lineno, p, inv(StateView(p), k + 1, StateView(old)))
+                    for nm in keeps:
+                        a, b = p.env.get(nm), body0.env.get(nm)
+                        same = (a is b) or (isinstance(a, z3.ExprRef) and isinstance(b, z3.ExprRef) and a.eq(b)) or (isinstance(a, Ref) and isinstance(b, Ref) and a.loc == b.loc and p.heap[a.loc] is body0.heap[b.loc])
+                        self.oblige('loop%d-keeps:%s@L%d' % (ordinal, nm, st.lineno), p, z3.BoolVal(bool(same)), st.lineno, 'invariant')
             elif ctrl == 'break':
                 after_break.append((p, 'next', None))
             else:
@@ -1152,7 +1197,15 @@ class Exec:
         with S.symbolic_mode():
             for (nm, hyps, goal) in c.lemma_obligations(StateView(ps)):
                 self.obligations.append(Obligation('lemma:' + nm, list(hyps), goal, 0, 'lemma'))
-        paths = self.exec_block(self.fn.body, ps)
+        body = self.fn.body
+        start = getattr(c, 'body_from', None)
+        if start is not None:
+            # the contract covers the function from the named statement on (the dropped prefix and what is assumed of it are listed in the evidence)
+            idx = [i for i, st in enumerate(body) if ast.unparse(st) == start]
+            if len(idx) != 1: raise Undecided('statement %r that starts the part under contract occurs %d times in %s' % (start, len(idx), c.qualname))
+            self.notes.append('dropped prefix: statements 1..%d of the body (lines %d-%d)' % (idx[0], body[0].lineno, body[idx[0] - 1].end_lineno if idx[0] else body[0].lineno))
+            body = body[idx[0]:]
+        paths = self.exec_block(body, ps)
         old = StateView(self.entry)
         nret = nraise = 0
         with S.symbolic_mode():
